@@ -358,6 +358,13 @@ class HooksBase(Contract):
                 h.add_to_stats(value=st.v, process=0, type='x')
                 h.reset_stats()
             elif cb == 'none_step':
+                # history inside the instance (must not depend on what else ran in this process): ANOTHER hook object and this one have
+                # recorded entries with every field given before
+                h0 = Hooks()
+                h0.pre_step(T, 0)
+                h0.add_to_stats(value=st.w, process=3, time=S.time, level=0, iter=S.status.iter, sweep=1, type='y')
+                h.add_to_stats(value=st.w, process=2, time=T.time, level=1, iter=T.status.iter, sweep=2, type='y')
+                h.reset_stats()
                 h.post_setup(None, None)
                 h.add_to_stats(value=st.v, process=0, type='x')
             else:
@@ -389,7 +396,7 @@ class HooksBase(Contract):
         yield 'value_stored', v is st.v
         if cb == 'none_step':
             yield 'no_step_means_zero_restarts', k.num_restarts == 0
-            yield 'unspecified_fields_are_None', k.time is None and k.level is None and k.iter is None
+            yield 'unspecified_fields_are_None', k.time is None and k.level is None and k.iter is None and k.sweep is None
         else:
             yield 'every_callback_refreshes_the_restart_count_from_the_step_it_is_called_for', seq(k.num_restarts, st.S.status.restarts_in_a_row)
             yield 'given_fields_stored', k.process == 3 and k.type == 'x' and k.level == 0 and k.sweep == 1
